@@ -19,9 +19,10 @@ import (
 )
 
 type GhostField struct {
-	Owner string // type key
-	Name  string
-	Type  types.Type
+	Owner   string // type key
+	Name    string
+	Type    types.Type
+	IsIface bool
 }
 
 type Program struct {
@@ -175,7 +176,11 @@ func (p *Program) register() error {
 			if pkgPath == "" {
 				owner = g.TypeName
 			}
-			p.Ghosts[owner+"."+g.Field] = &GhostField{Owner: owner, Name: g.Field, Type: t}
+			gf := &GhostField{Owner: owner, Name: g.Field, Type: t}
+			if ot, err := p.resolveType(g.TypeName, pkgPath); err == nil {
+				_, gf.IsIface = ot.Underlying().(*types.Interface)
+			}
+			p.Ghosts[owner+"."+g.Field] = gf
 		}
 		for _, f := range sf.Funcs {
 			f.Pkg = p.resolvePkg(f.Pkg)
